@@ -2,4 +2,5 @@ CONSTANT Suite = "alupairs"
 INIT Init
 NEXT Next
 INVARIANT Debug
+INVARIANT Emit
 CHECK_DEADLOCK FALSE
